@@ -4,17 +4,137 @@ package packetmap
 
 import v "github.com/jech/galene/zzverif"
 
-// H_C01_Smoke: three operations from the zero Map with a symbolic first
-// sequence number.
-func H_C01_Smoke() {
+// before reports whether a precedes b in the mod-2^16 order.
+func before(a, b uint16) bool {
+	return a != b && ((b-a)&0x8000) == 0
+}
+
+// inWindow: consecutive arrivals stay within the 8192-packet
+// re-synchronisation window, measured like the implementation does from the
+// successor of the newest packet seen (either direction).
+func inWindow(newest, s uint16) bool {
+	next := newest + 1
+	return uint16(s-next) <= 8192 || uint16(next-s) <= 8192
+}
+
+const maxOps = 8
+
+// hist is the SPECIFICATION's memory of a history: which source numbers were
+// withheld, and which were forwarded under which number.  It is updated from
+// arguments and results of the public API only.
+type hist struct {
+	w      [maxOps]uint16 // withheld source seqnos
+	nw     int
+	fs, fo [maxOps]uint16 // forwarded: source, outgoing
+	fp     [maxOps]uint16 // pid delta returned
+	nf     int
+	newest uint16 // newest source seqno seen so far
+	have   bool
+}
+
+// withheldBefore counts the withheld packets that precede s.
+func (h *hist) withheldBefore(s uint16) uint16 {
+	var n uint16
+	for j := 0; j < h.nw; j++ {
+		n += v.IteU16(before(h.w[j], s), 1, 0)
+	}
+	return n
+}
+
+func (h *hist) isWithheld(s uint16) bool {
+	r := false
+	for j := 0; j < h.nw; j++ {
+		r = v.Or(r, h.w[j] == s)
+	}
+	return r
+}
+
+// step feeds one arriving packet through Drop-or-Map exactly like
+// rtpDownTrack.Write does, and checks the property on the result.
+func (h *hist) step(m *Map, i int, wantDrop bool) {
+	s := v.U16(v.Idx("s", i))
+	p := v.U16(v.Idx("p", i))
+	if h.have {
+		v.Assume(inWindow(h.newest, s))
+	}
+	inOrder := !h.have || before(h.newest, s)
+	if wantDrop {
+		if m.Drop(s, p) {
+			v.Assert(inOrder, "only an in-order packet is ever withheld")
+			h.w[h.nw] = s
+			h.nw++
+			h.newest, h.have = s, true
+			v.Reach("withheld")
+			return
+		}
+	}
+	ok, out, _ := m.Map(s, p)
+	if !ok {
+		v.Assert(!inOrder, "an in-order packet is always forwarded")
+		v.Reach("refused")
+		return
+	}
+	v.Assert(!h.isWithheld(s), "a withheld packet is never forwarded later")
+	v.Assert(out == s-h.withheldBefore(s), "outgoing seqno = incoming - number of earlier withheld packets")
+	for j := 0; j < h.nf; j++ {
+		v.Assert(v.Implies(h.fs[j] == s, h.fo[j] == out), "a duplicate/late copy gets the number of the first copy")
+		v.Assert(v.Implies(h.fs[j] != s, h.fo[j] != out), "two different forwarded packets never share a number")
+		v.Assert(v.Implies(before(h.fs[j], s), before(h.fo[j], out)), "source order is preserved")
+	}
+	h.fs[h.nf], h.fo[h.nf] = s, out
+	h.nf++
+	if inOrder {
+		h.newest, h.have = s, true
+	}
+	v.Reach("forwarded")
+}
+
+// H_C01_BMC: every history of K arrivals from the zero Map (any start seqno,
+// wraparound, loss, duplicates, reordering, any drop pattern) inside the
+// re-synchronisation window.
+func H_C01_BMC() {
+	K := v.Param("K")
 	var m Map
-	s := v.U16("s")
-	p := v.U16("p")
-	ok, out, pd := m.Map(s, p)
-	v.Assert(ok && out == s && pd == 0, "first packet maps to itself")
-	d := m.Drop(s+1, p)
-	v.Assert(d, "drop of the in-order successor is accepted")
-	ok2, out2, _ := m.Map(s+2, p)
-	v.Assert(ok2 && out2 == s+1, "after one drop the next packet is renumbered by one")
+	var h hist
+	var drop [maxOps]bool
+	for i := 0; i < K; i++ {
+		drop[i] = v.Choice("drop", 2) == 1
+	}
+	for i := 0; i < K; i++ {
+		h.step(&m, i, drop[i])
+	}
+	v.Reach("end")
+}
+
+// H_C03_BMC: after such a history, a NACK for ANY outgoing number o is
+// answered by Reverse with the source packet that was forwarded as o, or
+// refused; never with a withheld packet.
+func H_C03_BMC() {
+	K := v.Param("K")
+	var m Map
+	var h hist
+	var drop [maxOps]bool
+	for i := 0; i < K; i++ {
+		drop[i] = v.Choice("drop", 2) == 1
+	}
+	for i := 0; i < K; i++ {
+		h.step(&m, i, drop[i])
+	}
+	o := v.U16("nack")
+	ok, s, _ := m.Reverse(o)
+	if ok {
+		if h.have {
+			v.Assume(inWindow(h.newest, s))
+		}
+		v.Assert(!h.isWithheld(s), "a NACK never resurrects a withheld packet")
+		v.Assert(o == s-h.withheldBefore(s), "Reverse(o) is a source packet that was (or would be) forwarded as o")
+		for j := 0; j < h.nf; j++ {
+			v.Assert(v.Implies(h.fo[j] == o, h.fs[j] == s), "Reverse returns the packet originally sent under that number")
+		}
+		// re-running Map (as gotNACK -> Write does) re-applies the same number
+		ok2, out2, _ := m.Map(s, 0)
+		v.Assert(v.Implies(ok2, out2 == o), "re-mapping the source packet yields the NACKed number again")
+		v.Reach("reversed")
+	}
 	v.Reach("end")
 }
